@@ -234,6 +234,11 @@ FAILING = [
     ("chk2plt-default-is-reference-mixed-forms-2", None, lambda r: tools.chk2plt(os.path.join(r, "chk00007"), None, ref="./plt00007")),
     ("chk2plt-output-is-reference-mixed-forms", None, lambda r: tools.chk2plt("chk00007", os.path.join(r, "plt00007"), ref="plt00007")),
     ("marinate-device-full", lambda r: os.symlink("/dev/full", os.path.join(r, "plt00010.pkl")), lambda r: tools.marinate("plt00010")),
+    ("marinate-small-device-full", lambda r: os.symlink("/dev/full", os.path.join(r, "plt2fab10.pkl")), lambda r: tools.marinate("plt2fab10")),
+    # the Header FILE of a plotfile named where the plotfile directory is expected
+    ("chef-header-file-as-plotfile", None, lambda r: tools.chef("plt00010/Header", "rec.py", None)),
+    ("marinate-header-file-as-plotfile", None, lambda r: tools.marinate("plt00010/Header")),
+    ("colander-header-file-as-plotfile", None, lambda r: tools.colander("plt00010/Header", "out_col", ["temp"])),
     ("whip-device-full", lambda r: os.symlink("/dev/full", os.path.join(r, "out_grid.npy")), lambda r: tools.whip("plt00010", "temp", "out_grid")),
     ("pestle-truncated", lambda r: _truncate(r, "plt00010", "Cell_D", 24), lambda r: tools.pestle("plt00010", "volFrac")),        # the last field: its data end the file
     ("pestle-unknown-field", None, lambda r: tools.pestle("plt00010", "no_such_field")),
@@ -325,7 +330,7 @@ def allowed_roots(root, tool, out_kind, inp_name):
         return []
     if out_kind != "default":
         return [os.path.join(root, n) for n in ("out_col", "out_col2", "out_cmb", "out_cmb4", "out_cmb5", "out_ck", "out_cks", "out_arr", "out_slc", "out_arr2",
-                                                "out_grid", "out_plt", "plt00010.pkl", "chk_runs", "plt_runs")]
+                                                "out_grid", "out_plt", "plt00010.pkl", "plt2fab10.pkl", "chk_runs", "plt_runs")]
     # documented defaults: beside the input (same parent directory) or in the working directory, never inside the input
     base = tool.split("-")[0]
     if base == "chef":
